@@ -329,7 +329,7 @@ Definition drained (m m' : machine) (o : nat) : Prop :=
 Lemma drained_intro m m' o r :
   CI m -> res (cv m) (m', r) -> r <> OFuel -> DMS o 0 (cv m) (cv m') -> drained m m' o.
 Proof.
-  intros HI HR Hr HD. apply res_Rel in HR; [|exact Hr]. destruct HR as [(HI' & _ & _) HK1].
+  intros HI HR Hr HD. apply res_Rel in HR; [|exact Hr]. destruct HR as ((HI' & _ & _) & HK1 & _).
   split; [exact HI'|]. split.
   - intros k a s H. rewrite <- slotv_cv in H. destruct (HD k a s H) as [[Hk _]|Hge]; [lia|exact Hge].
   - intros k a s H. rewrite <- slotv_cv in H. split; [exact (ci_nx _ HI _ _ _ _ H)|].
